@@ -174,14 +174,23 @@ func validStream(t *rapid.T, b2 bool) ([]byte, string, int) {
 		z, _ := ref.Encode(in, b2)
 		return z, "canon/" + fam, len(in)
 	default:
-		in := rapid.SliceOfN(rapid.SampledFrom([]byte{' ', ' ', 'a', 'b'}), 0, 150).Draw(t, "pin")
+		in := rapid.SliceOfN(rapid.SampledFrom([]byte{' ', ' ', 'a', 0, 0}), 0, 150).Draw(t, "pin")
 		vec := rapid.SliceOfN(rapid.IntRange(-1, 9000), 1, 8).Draw(t, "parse")
 		i := 0
-		z, _ := ref.EncodeParse(in, b2, rapid.SampledFrom([]int{0, 60, 1423, 1483, 1988}).Draw(t, "reach"), func(pos int, cands []ref.Match) int {
+		z, _ := ref.EncodeParse(in, b2, rapid.SampledFrom([]int{0, 60, 1423, 1483, 1988, 1989, 2048}).Draw(t, "reach"), func(pos int, cands []ref.Match) int {
 			v := vec[i%len(vec)]
 			i++
 			if v < 0 || len(cands) == 0 {
 				return -1
+			}
+			if v%3 == 0 { // farthest candidate: reaches the edges of the initial window
+				best := 0
+				for k, m := range cands {
+					if m.Dist >= cands[best].Dist {
+						best = k
+					}
+				}
+				return best
 			}
 			return v % len(cands)
 		})
